@@ -4,11 +4,12 @@ import json
 import os
 import sys
 
-from . import core, gen_tables
+from . import core, gen_tables, gen_code
 
 
 def main():
     gen_tables.regenerate()
+    gen_code.regenerate()
     mods = ["MofunModel"]
     for p in sorted(glob.glob(os.path.join(core.LEAN, "theorems", "C*.json")) + glob.glob(os.path.join(core.LEAN, "theorems", "extra", "C*.json"))):
         m = json.load(open(p))
